@@ -761,6 +761,8 @@ fn can_show_definition(ctx: &Context, name: &str) -> bool {
 fn expand_aliases(ctx: &Context, name: &str) -> (String, String) {
     let mut name = name.to_owned();
     let mut canon = ctx.canonicalize(&name).unwrap_or_else(|| name.clone());
+    // Aliases loaded from several files can form a loop; do not follow it forever.
+    let mut steps = 0;
 
     while let Some(&Expr::Unit { name: ref unit }) = {
         ctx.registry
@@ -769,6 +771,10 @@ fn expand_aliases(ctx: &Context, name: &str) -> (String, String) {
             .or_else(|| ctx.registry.definitions.get(&*canon))
     } {
         if ctx.registry.base_units.contains(&*name) {
+            break;
+        }
+        steps += 1;
+        if steps > 64 || name == *unit {
             break;
         }
         let unit_canon = ctx.canonicalize(unit).unwrap_or_else(|| unit.clone());
